@@ -94,14 +94,17 @@ func TimeFromTime64(t Time64, t0 time.Time) time.Time {
 	return time.Unix(sec, nsec).UTC()
 }
 
+// Before reports whether t is before u. NTP timestamps wrap around every
+// 2^32 s, so the two are compared by their signed distance modulo one era:
+// the order is that of the instants they stand for as long as these are less
+// than 2^31 s apart, before as well as after an era rollover.
 func (t Time64) Before(u Time64) bool {
-	return t.Seconds < u.Seconds ||
-		t.Seconds == u.Seconds && t.Fraction < u.Fraction
+	return int64((uint64(t.Seconds)<<32|uint64(t.Fraction))-
+		(uint64(u.Seconds)<<32|uint64(u.Fraction))) < 0
 }
 
 func (t Time64) After(u Time64) bool {
-	return t.Seconds > u.Seconds ||
-		t.Seconds == u.Seconds && t.Fraction > u.Fraction
+	return u.Before(t)
 }
 
 func ClockOffset(t0, t1, t2, t3 time.Time) time.Duration {
